@@ -125,10 +125,12 @@ func (p *HTTPProxy) ServeHTTP(w http.ResponseWriter, r *http.Request) {
 	// build the request url since r.URL will get modified
 	// by the reverse proxy and contains only the RequestURI anyway
 	requestURL := &url.URL{
-		Scheme:   scheme(r),
-		Host:     r.Host,
-		Path:     r.URL.Path,
-		RawQuery: r.URL.RawQuery,
+		Scheme:     scheme(r),
+		Host:       r.Host,
+		Path:       r.URL.Path,
+		RawPath:    r.URL.RawPath, // keep the client's percent-encoding, e.g. %2F
+		ForceQuery: r.URL.ForceQuery,
+		RawQuery:   r.URL.RawQuery,
 	}
 
 	if t.RedirectCode != 0 && t.RedirectURL != nil {
@@ -141,9 +143,10 @@ func (p *HTTPProxy) ServeHTTP(w http.ResponseWriter, r *http.Request) {
 
 	// build the real target url that is passed to the proxy
 	targetURL := &url.URL{
-		Scheme: t.URL.Scheme,
-		Host:   t.URL.Host,
-		Path:   r.URL.Path,
+		Scheme:     t.URL.Scheme,
+		Host:       t.URL.Host,
+		Path:       r.URL.Path,
+		ForceQuery: r.URL.ForceQuery, // the proxy forwards a trailing '?'
 	}
 	if t.URL.RawQuery == "" || r.URL.RawQuery == "" {
 		targetURL.RawQuery = t.URL.RawQuery + r.URL.RawQuery
